@@ -42,6 +42,15 @@ theorem mgrBlock_bal (s : St) (h : Nat) (x : BbuExit) : Bal s (mgrBlock s h x) :
       omega
   · exact bal_id s
 
+theorem mgrIntercept_bal (s : St) (h : Nat) : Bal s (mgrIntercept s h) := by
+  unfold mgrIntercept
+  split
+  · have hb := failUp_bal { s with intercepted := false }
+    have hr : resolved { s with intercepted := false } = resolved s := rfl
+    simp only [Bal, resCount_cons, Act.isRes, Bool.false_eq_true, if_false] at *
+    omega
+  · exact bal_id s
+
 theorem monTxs_up (s : St) (h : Nat) (c t : Bool) : (monTxs s h c t).up = s.up := by
   unfold monTxs; simp only []; split <;> split <;> rfl
 
@@ -99,16 +108,21 @@ theorem nodeStep_bal (s : St) (e : Ev) : Bal s (nodeStep s e) := by
   cases e with
   | block h x c t =>
     have h1 := mgrBlock_bal s h x
+    have hi := mgrIntercept_bal (mgrBlock s h x).1 h
     simp only [nodeStep]
     split
-    · have h2 := monDown_bal (mgrBlock s h x).1 h c t
-      have h3 := monUp_bal (monDown (mgrBlock s h x).1 h c t).1 h
-      have hr : ∀ q : St, resolved { q with monBest := h } = resolved q := fun _ => rfl
+    · have h2 := monDown_bal (mgrIntercept (mgrBlock s h x).1 h).1 h c t
+      have h3 := monUp_bal (monDown (mgrIntercept (mgrBlock s h x).1 h).1 h c t).1 h
       simp only [Bal, resCount_append, resolved] at *
       omega
-    · exact h1
+    · simp only [Bal, resCount_append] at *
+      omega
   | preimage => exact onPreimage_bal s
   | downCommitted =>
+    simp only [nodeStep]; split
+    · exact bal_of_up_eq _ _ rfl _ resCount_nil
+    · exact bal_id s
+  | released =>
     simp only [nodeStep]; split
     · exact bal_of_up_eq _ _ rfl _ resCount_nil
     · exact bal_id s
@@ -158,6 +172,16 @@ theorem mgrBlock_noDown (s : St) (h : Nat) (x : BbuExit) : Act.broadcastDown ∉
     cases x.returnsTimedOut <;> cases x.isOk <;>
       simp only [if_true, if_false, Bool.false_eq_true, List.mem_cons, List.mem_append, reduceCtorEq,
         false_or, or_false, List.not_mem_nil, not_false_eq_true] <;> first | exact hf | skip
+  · simp
+
+theorem mgrIntercept_out (s : St) (h : Nat) : (mgrIntercept s h).1.outCltv = s.outCltv := by
+  unfold mgrIntercept; split
+  · simp only [failUp_out]
+  · rfl
+theorem mgrIntercept_noDown (s : St) (h : Nat) : Act.broadcastDown ∉ (mgrIntercept s h).2 := by
+  unfold mgrIntercept; split
+  · have hf := failUp_noDown { s with intercepted := false }
+    simp only [List.mem_cons, reduceCtorEq, false_or]; exact hf
   · simp
 
 theorem monTxs_out (s : St) (h : Nat) (c t : Bool) : (monTxs s h c t).outCltv = s.outCltv := by
@@ -225,10 +249,11 @@ theorem nodeStep_out (s : St) (e : Ev) : (nodeStep s e).1.outCltv = s.outCltv :=
   | block h x c t =>
     simp only [nodeStep]
     split
-    · simp only [monUp_out, monDown_out, mgrBlock_out]
-    · exact mgrBlock_out s h x
+    · simp only [monUp_out, monDown_out, mgrIntercept_out, mgrBlock_out]
+    · simp only [mgrIntercept_out, mgrBlock_out]
   | preimage => exact onPreimage_out s
   | downCommitted => simp only [nodeStep]; split <;> rfl
+  | released => simp only [nodeStep]; split <;> rfl
 
 /-- a step that logs `broadcastDown` is a block at a height where the translated per-HTLC test holds for the outbound HTLC -/
 theorem nodeStep_down (s : St) (e : Ev) (hd : Act.broadcastDown ∈ (nodeStep s e).2) :
@@ -238,19 +263,24 @@ theorem nodeStep_down (s : St) (e : Ev) (hd : Act.broadcastDown ∈ (nodeStep s 
     simp only [nodeStep] at hd
     split at hd
     · simp only [List.mem_append] at hd
-      rcases hd with (hd | hd) | hd
+      rcases hd with ((hd | hd) | hd) | hd
       · exact absurd hd (mgrBlock_noDown _ _ _)
+      · exact absurd hd (mgrIntercept_noDown _ _)
       · have := monDown_down _ _ _ _ hd
-        rw [mgrBlock_out] at this
+        rw [mgrIntercept_out, mgrBlock_out] at this
         exact ⟨_, this⟩
       · exact absurd hd (monUp_noDown _ _)
-    · exact absurd hd (mgrBlock_noDown _ _ _)
+    · simp only [List.mem_append] at hd
+      rcases hd with hd | hd
+      · exact absurd hd (mgrBlock_noDown _ _ _)
+      · exact absurd hd (mgrIntercept_noDown _ _)
   | preimage =>
     simp only [nodeStep, onPreimage] at hd
     split at hd
     · simp at hd
     · split at hd <;> simp at hd
   | downCommitted => simp only [nodeStep] at hd; split at hd <;> simp at hd
+  | released => simp only [nodeStep] at hd; split at hd <;> simp at hd
 
 theorem run_down (es : List Ev) : ∀ (s : St) (h : Nat), (h, Act.broadcastDown) ∈ (run s es).2 →
     ∃ p, shouldBroadcastFor h s.outCltv true p = true := by
